@@ -291,10 +291,10 @@ class Loops:
                 shape, cursor, bound_by_test = 'cursor', l.id, True
             elif isinstance(test.ops[0], ast.Gt) and src(l).startswith('len(') and isinstance(l, ast.Call) \
                     and isinstance(l.args[0], ast.Name) and lin_const(lin(r, {})) is not None:
-                shape, cursor = 'shrink', l.args[0].id
+                shape, cursor, bound_by_test = 'shrink', l.args[0].id, True
             elif isinstance(test.ops[0], ast.Lt) and isinstance(l, ast.Call) and src(l).startswith('len(') \
                     and isinstance(l.args[0], ast.Name):
-                shape, cursor = 'grow', l.args[0].id
+                shape, cursor, bound_by_test = 'grow', l.args[0].id, True
         if shape is None:
             # loop test does not name a cursor: look for an integer cursor that bounds itself
             # through unpack_from(fmt, D, cursor)
